@@ -148,6 +148,7 @@ def plan(prop, tier):
         P += S("release", "hist", n=4000 if q else 20000, shards=2, profile="general")
         P += S("debug", "hist", n=1500 if q else 8000, shards=2, profile="work")
         P += S("release", "sweep", shards=2 if q else 6, maxlen=140 if q else 1000, dense=130 if q else 300, timeout=1800)
+        P += S("release", "sets", n=3000 if q else 20000, shards=2)
     elif prop == "C03":
         P += S("release", "ladder", n=6, shards=8 if q else 14, keys=20000 if q else 200000, timeout=2400)
         P += S("release", "hist", n=4000 if q else 30000, shards=6, profile="general")
